@@ -183,8 +183,13 @@ def d2_condense(chk: Check) -> None:
 def _merges(loop: ast.For, receiver: str, arg: str) -> bool:
     calls = [c for c in walk_local(loop) if isinstance(c, ast.Call) and
              src(c.func) == receiver + ".merge_with"]
-    return len(calls) == 1 and len(calls[0].args) == 1 and \
-        src(calls[0].args[0]) == arg
+    if not (len(calls) == 1 and len(calls[0].args) == 1):
+        return False
+    a = calls[0].args[0]
+    if isinstance(a, ast.Call) and src(a.func).split(".")[-1] == "deepcopy" \
+            and len(a.args) == 1:
+        a = a.args[0]
+    return src(a) == arg
 
 
 def d2_matrix(chk: Check) -> None:
@@ -217,6 +222,55 @@ def d2_matrix(chk: Check) -> None:
     else:
         chk.ok("C18-D2b", fi, outer[0], "no early leave",
                "break occurs only inside error handlers")
+
+
+def d2_matrix_copies(chk: Check) -> None:
+    """merge_with() stores right-hand nodes in the left document by
+    reference (checked: _merge_dicts assigns the iterated right-hand value
+    into the left hash).  A right document that is merged into several left
+    documents must therefore be handed over as a copy each time, or the
+    left documents share nodes and later merges write through to the right
+    document itself."""
+    prog = chk.prog
+    chk.rule("C18-D2d", "matrix: a right document, merged into every left "
+             "document, is handed to merge_with as a deep copy", floor=2)
+    md = prog.func("Merger._merge_dicts")
+    lhs, rhs = md.params()[1], md.params()[2]
+    captures = False
+    for loop in walk_local(md.node):
+        if isinstance(loop, ast.For) and src(loop.iter).startswith(rhs + "."):
+            names = {n.id for n in ast.walk(loop.target)
+                     if isinstance(n, ast.Name)}
+            for a in walk_local(loop):
+                if isinstance(a, ast.Assign) and \
+                        isinstance(a.targets[0], ast.Subscript) and \
+                        src(a.targets[0].value) == lhs and \
+                        isinstance(a.value, ast.Name) and a.value.id in names:
+                    captures = True
+    if captures:
+        chk.ok("C18-D2d", md, md.node, "_merge_dicts stores right-hand nodes",
+               "by reference: `{}[key] = <value iterated from {}>`".format(
+                   lhs, rhs), False)
+    else:
+        raise AnalysisError("_merge_dicts no longer stores right-hand values "
+                            "by reference; revisit C18-D2d")
+    fi = fn(prog, "merge_matrix")
+    p_r = fi.params()[2]
+    calls = [c for c in walk_local(fi.node)
+             if isinstance(c, ast.Call) and src(c.func).endswith(".merge_with")]
+    if not calls:
+        raise AnalysisError("merge_with call of merge_matrix not found")
+    for c in calls:
+        a = c.args[0] if c.args else None
+        if isinstance(a, ast.Call) and \
+                src(a.func).split(".")[-1] == "deepcopy":
+            chk.ok("C18-D2d", fi, c, src(c)[:60], "a fresh copy per pair")
+        else:
+            chk.fail("C18-D2d", fi, c, src(c)[:60],
+                     "the same right-hand document object is merged into "
+                     "every left document: the left documents come to share "
+                     "its nodes, and a node appended to by one merge is "
+                     "appended to again by the next")
 
 
 def simulate_across(fi: FuncInfo, L: int, R: int
@@ -355,5 +409,14 @@ def run(chk: Check) -> None:
     d1_routing(chk)
     d2_condense(chk)
     d2_matrix(chk)
+    d2_matrix_copies(chk)
     d2_across(chk)
     d3_states(chk)
+    # a Merger folds many right-hand documents into one left document:
+    # conflict detection must look at the accumulated document each time
+    from rules.c10 import d4_fresh_tables
+    d4_fresh_tables(chk, "C18-D4")
+    # one configuration object serves every pairwise step of a multi-
+    # document merge: its per-document tables must be rebuilt each time
+    from rules.c05 import d2d_rules_per_document
+    d2d_rules_per_document(chk, "C18-D5")
